@@ -224,6 +224,64 @@ func Harness_C11_PatchEncode(excluded int) {
 	verif.Cover("round-trip")
 }
 
+// Harness_C11_NestedPatch: Item_PartialUpdate with a nested patch on the
+// record-typed field sub; excluded: 0 none, 1 sub (whole field), 2 sub/v, 3 name.
+func Harness_C11_NestedPatch(excluded int) {
+	p := &vt.Item_PartialUpdate{}
+	nested := verif.Choose(4) // 0 none, 1 empty nested patch, 2 nested set v, 3 nested delete w
+	switch nested {
+	case 1:
+		p.Sub = &vt.Leaf_PartialUpdate{}
+	case 2:
+		p.Sub = &vt.Leaf_PartialUpdate{}
+		p.Sub.Set_Fields.V = c11PtrS("nv")
+	case 3:
+		p.Sub = &vt.Leaf_PartialUpdate{}
+		p.Sub.Delete_Fields.W = true
+	}
+	setSub := verif.Bool()
+	if setSub {
+		p.Set_Fields.Sub = &vt.Leaf{V: "whole"}
+	}
+	setName := verif.Bool()
+	if setName {
+		p.Set_Fields.Name = c11PtrS("n")
+	}
+	var spec restlicodec.PathSpec
+	switch excluded {
+	case 1:
+		spec = restlicodec.NewPathSpec("sub")
+	case 2:
+		spec = restlicodec.NewPathSpec("sub/v")
+	case 3:
+		spec = restlicodec.NewPathSpec("name")
+	}
+	w := restlicodec.NewCompactJsonWriterWithExcludedFields(spec)
+	err := p.MarshalRestLi(w)
+	out := w.Finalize()
+	illegal := (nested != 0 && setSub) || // set and patch of the same field
+		(excluded == 1 && (nested != 0 || setSub)) ||
+		(excluded == 2 && nested == 2) ||
+		(excluded == 3 && setName)
+	if illegal {
+		verif.Assert(err != nil, "an illegal partial update (set-and-patch of one field, or touching an excluded field) was encoded: "+out)
+		verif.Cover("rejected")
+		return
+	}
+	if excluded == 2 && setSub {
+		// setting the whole record while one of its fields is excluded: the
+		// property does not say; accept either
+		return
+	}
+	verif.Assert(err == nil, "a legal partial update was refused")
+	r, _ := restlicodec.NewJsonReader([]byte(out))
+	q := new(vt.Item_PartialUpdate)
+	verif.Assert(q.UnmarshalRestLi(r) == nil, "the encoder's patch does not decode: "+out)
+	verif.Assert((q.Sub != nil) == (nested != 0), "nested patch presence changed: "+out)
+	verif.Assert((q.Set_Fields.Sub != nil) == setSub && (q.Set_Fields.Name != nil) == setName, "set fields changed: "+out)
+	verif.Cover("round-trip")
+}
+
 // Harness_C11_PatchDecode: hand-built patch documents with the illegal combinations.
 func Harness_C11_PatchDecode() {
 	docs := []string{
